@@ -1,6 +1,7 @@
 (* C15 - failed text/binary assertions leave faithful artefacts; passing ones none. *)
 From Coq Require Import ZArith List Bool.
-From Tdda Require Import Base.Sexp Base.Str RefTest.CheckStrings RefTest.Artefacts RefTest.ArtefactsProofs.
+From Tdda Require Import Base.Sexp Base.Str RefTest.CheckStrings RefTest.CheckStringsProofs RefTest.Artefacts RefTest.ArtefactsProofs
+     RefTest.ReconProofs.
 Import ListNotations.
 Open Scope Z_scope.
 
@@ -43,6 +44,30 @@ Theorem C15_raw_actual_written_iff : forall c, fc_failed c = true -> fc_create c
   (In ActualRaw (written c) <-> fc_apath c = false).
 Proof. exact raw_actual_written_iff_proof. Qed.
 Print Assumptions C15_raw_actual_written_iff.
+
+(* The post-processed pair (FilesComparison.reconstruct): for every option set, pattern oracle and texts that compare
+   equally many kept lines without divergence, when a reconstruction is made the two texts have the same number of
+   lines and the places where they differ are, in order, exactly the unexcused differences (normalised lines) - removed
+   lines and excused differences appear as one marker line that is the same on both sides. *)
+Theorem C15_postprocessed_pair_differs_exactly : forall o orc A E r,
+  no_divergence o orc A E ->
+  length (prep o A) = length (prep o E) ->
+  r_recon (check_strings o orc A E) = Some r ->
+  length (fst r) = length (snd r) /\
+  diffpairs r = map (fun p => (norm o (fst p), norm o (snd p))) (U o orc A E).
+Proof. exact recon_shows_unexcused. Qed.
+Print Assumptions C15_postprocessed_pair_differs_exactly.
+
+(* ... and at the level of reconstruct itself, for ANY removal masks and ignore lists *)
+Theorem C15_reconstruct_differs_exactly : forall arem erem aign eign fuel a e ia ie,
+  (length a + length e < fuel)%nat ->
+  length (kept_lines arem a ia) = length (kept_lines erem e ie) ->
+  let r := reconstruct fuel a e ia ie arem erem aign eign in
+  length (fst r) = length (snd r) /\
+  diffpairs r = map (fun q => (snd (fst q), snd (snd q)))
+                    (filter (shown aign eign) (combine (kept_lines arem a ia) (kept_lines erem e ie))).
+Proof. exact reconstruct_differs_exactly. Qed.
+Print Assumptions C15_reconstruct_differs_exactly.
 
 Example C15_binary_example :
   check_binary [1;2;3;4] [1;2;9;4;5] =
